@@ -70,7 +70,7 @@ def check_job(ctx, utils, step, tag):
     return True
 
 
-STEP_SHAPES = ["/a", "/a/b", "/a/b/c", "/step-1", "/a.b", "/a/b.0", "/a/0", "/0/1", "/a/b-scatter",
+STEP_SHAPES = ["/", "/a", "/a/b", "/a/b/c", "/step-1", "/a.b", "/a/b.0", "/a/0", "/0/1", "/a/b-scatter",
                "/a/__schedule__", "/x y", "/a/b/c/d/e", "/a-injector", "/1.2/3.4", "/a/ü"]
 
 
